@@ -160,12 +160,12 @@ func verifC09PubFraming() {
 				verifrt.Observe("body", msgs[0].Body)
 			}
 			// the rest of the stream is untouched: the next read continues right after the body
-			rest := make([]byte, len(wire)-4-int(size))
-			for i := range rest {
+			nRest := len(wire) - 4 - int(size)
+			for i := 0; i < nRest; i++ {
 				b, e := c.Reader.ReadByte()
 				verifrt.Assert(e == nil && b == wire[4+int(size)+i], "pub-consumes-exactly-prefix-and-body")
 			}
-			verifrt.Reach("accepted-with-trailing-bytes", len(rest) > 0)
+			verifrt.Reach("accepted-with-trailing-bytes", nRest > 0)
 		}
 		return
 	}
